@@ -20,6 +20,8 @@ theorem C01_squeeth_counted_once_step (cx : NumCtx) (e : Env) (s : State) (op : 
     cases op with
     | update => exact updateGo_once cx e _ s h
     | uniRemove pos => exact uniRemoveOp_once cx e s pos h
+    | buy o q => exact h.of_sameRefs (sameRefs_of_frame (buy_frame cx e s o q))
+    | sell o q => exact h.of_sameRefs (sameRefs_of_frame (sell_frame cx e s o q))
     | _ => simp [Op.isAtomic] at hna
 
 /-- **exactly once, every history**: along any sequence of operations and any price / norm-factor path -/
@@ -151,6 +153,67 @@ theorem C01_squeeth_balance_from_raw_state (e : Env) (s : State) (b : Balance) (
       rw [hr]
       exact ⟨by ring, trivial, by ring, by ring, trivial, trivial, trivial, trivial⟩
 
+/-! ### the long side: a trade changes the wallet and nothing the markets value -/
+namespace Squeeth
+/-- the three views read the state through vaults and positions only (and the wallet's oSQTH entry for the long amount) -/
+theorem effColl_of_frame (cx : NumCtx) (e : Env) {s s' : State} (hv : s'.vaults = s.vaults) (hp : s'.positions = s.positions)
+    (vk : Nat) : effColl cx e s' vk = effColl cx e s vk := by
+  unfold effColl posAmount; rw [hv, hp]
+
+theorem sumEffColl_of_frame (cx : NumCtx) (e : Env) {s s' : State} (hv : s'.vaults = s.vaults) (hp : s'.positions = s.positions)
+    (ks : List Nat) (acc : Rat) : sumEffColl cx e s' ks acc = sumEffColl cx e s ks acc := by
+  induction ks generalizing acc with
+  | nil => rfl
+  | cons k rest ih => unfold sumEffColl; rw [effColl_of_frame cx e hv hp k]; cases effColl cx e s k <;> simp [ih]
+
+end Squeeth
+
+/-- **a trade of the long side moves no market value**: after `buy_squeeth` / `sell_squeeth` — accepted or rejected, any arguments, any
+    arithmetic context — every vault's effective collateral, the pool's valuation of the free LP positions and its position count are
+    what they were, and `get_market_balance` answers the same balance except for the long amount, which is the wallet's new oSQTH
+    balance (`osqth_net_amount` follows it).  The account's value changes by the change of the wallet, and by nothing else. -/
+theorem C01_squeeth_trade_moves_no_market_value (cx : NumCtx) (e : Env) (s : State) (op : Op) (hop : op.isTrade = true) :
+    (∀ vk, effColl cx e (step cx e s op).st vk = effColl cx e s vk) ∧
+    uniNetValue cx e (step cx e s op).st = uniNetValue cx e s ∧ uniCount (step cx e s op).st = uniCount s ∧
+    (∀ b l, marketBalance cx e s = .ok b → AList.get? (step cx e s op).st.wallet sqOsqthName = some l →
+      marketBalance cx e (step cx e s op).st = .ok { b with long := l, net := cx.sub l b.short }) := by
+  obtain ⟨hv, hp, _⟩ := trade_frame cx e s op hop
+  refine ⟨effColl_of_frame cx e hv hp, ?_, ?_, ?_⟩
+  · unfold uniNetValue; rw [hp]
+  · unfold uniCount; rw [hp]
+  · intro b l hb hl
+    unfold marketBalance at hb ⊢
+    rw [hl, hv, sumEffColl_of_frame cx e hv hp]
+    cases hw : AList.get? s.wallet sqOsqthName with
+    | none => simp [hw] at hb
+    | some l0 =>
+      simp only [hw] at hb ⊢
+      cases hs : sumEffColl cx e s (s.vaults.map (·.1)) 0 with
+      | error er => simp [hs] at hb
+      | ok r =>
+        simp only [hs, Except.ok.injEq] at hb ⊢
+        rw [← hb]
+
+/-- **valuation after a trade = independent valuation** (exact arithmetic): whatever `get_market_balance` answers after
+    `buy_squeeth` / `sell_squeeth` is the raw-state formula of `C01_squeeth_balance_from_raw_state` evaluated on the vaults as they were
+    *before* the trade — `net_value = (Σ cᵢ)·WETH − (Σ shortᵢ)·(OSQTH·WETH)` with `cᵢ` the effective collateral of vault `i` before the
+    trade — and the long amount is the wallet's oSQTH after it -/
+theorem C01_squeeth_valuation_after_trade (e : Env) (s : State) (op : Op) (hop : op.isTrade = true) (b : Balance)
+    (h : marketBalance NumCtx.exact e (step NumCtx.exact e s op).st = .ok b) :
+    ∃ cs : List Rat, List.Forall₂ (fun kv c => effColl NumCtx.exact e s kv.1 = .ok c) s.vaults cs ∧
+      b.collEth = cs.sum ∧ b.short = (s.vaults.map (·.2.short)).sum ∧
+      b.netValue = cs.sum * e.weth - (s.vaults.map (·.2.short)).sum * (e.osqth * e.weth) ∧
+      AList.get? (step NumCtx.exact e s op).st.wallet sqOsqthName = some b.long ∧ b.net = b.long - b.short ∧
+      b.count = s.vaults.length := by
+  obtain ⟨hv, hp, _⟩ := trade_frame NumCtx.exact e s op hop
+  obtain ⟨cs, hcs, h1, h2, h3, _, h5, h6, _, h8⟩ := C01_squeeth_balance_from_raw_state e _ b h
+  rw [hv] at hcs h2 h3 h8
+  refine ⟨cs, ?_, h1, h2, h3, h5, h6, h8⟩
+  have : (fun (kv : Nat × Vault) c => effColl NumCtx.exact e (step NumCtx.exact e s op).st kv.1 = .ok c) =
+      (fun kv c => effColl NumCtx.exact e s kv.1 = .ok c) := by
+    funext kv c; rw [effColl_of_frame NumCtx.exact e hv hp]
+  rw [this] at hcs; exact hcs
+
 /-! ### non-vacuity: lend a position, then value the state -/
 namespace Squeeth
 def c01Env : Env := { nf := 1/2, weth := 2000, osqth := 1/10, now := none, rows := [], uniPrice := 1/10, uniOpen := true, mean := fun _ => 0 }
@@ -158,6 +221,8 @@ def c01Start : State :=
   { wallet := [("WETH", 10), ("OSQTH", 5)], vaults := [], maxId := 0,
     positions := [((18000, 21000), { liquidity := 10^19, pending0 := 0, pending1 := 0, transferred := false })], log := [] }
 def c01Hist : List (Env × Op) := [(c01Env, .openMint 2 1 none (some (18000, 21000))), (c01Env, .openMint 1 1 none none)]
+/-- … then buy 3 oSQTH and sell the oSQTH that 0.2 ETH pay for -/
+def c01Trades : List (Env × Op) := [(c01Env, .buy (some 3) none), (c01Env, .sell none (some (1/5)))]
 end Squeeth
 
 example : Once (runOps NumCtx.py c01Start c01Hist) :=
@@ -171,5 +236,11 @@ example : (runOps NumCtx.py c01Start c01Hist).positions.map (fun kp => kp.2.tran
 example : (runOps NumCtx.py c01Start c01Hist).vaults.map (fun kv => kv.2.nft) = [some (18000, 21000), none] := by decide +kernel
 example : uniCount (runOps NumCtx.py c01Start c01Hist) = 0 := by decide +kernel
 example : ((marketBalance NumCtx.py c01Env (runOps NumCtx.py c01Start c01Hist)).toOption.map (·.count)) = some 2 := by decide +kernel
+-- the two trades are accepted, move the wallet's oSQTH from 7 to 8 and leave the market's net value where it was
+example : (step NumCtx.exact c01Env (runOps NumCtx.exact c01Start c01Hist) (.buy (some 3) none)).err = none := by decide +kernel
+example : ((marketBalance NumCtx.exact c01Env (runOps NumCtx.exact c01Start (c01Hist ++ c01Trades))).toOption.map (fun b => (b.long, b.count))) =
+    some (8, 2) := by decide +kernel
+example : ((marketBalance NumCtx.exact c01Env (runOps NumCtx.exact c01Start (c01Hist ++ c01Trades))).toOption.map (·.netValue)) =
+    ((marketBalance NumCtx.exact c01Env (runOps NumCtx.exact c01Start c01Hist)).toOption.map (·.netValue)) := by decide +kernel
 
 end Demeter
